@@ -387,6 +387,7 @@ class J1939_21:
             if buffer_hash in self._snd_buffer and self._snd_buffer[buffer_hash]['state'] == self.SendBufferState.WAITING_CTS:
                 self._snd_buffer[buffer_hash]['state'] = self.SendBufferState.TRANSMISSION_FINISHED
                 self._snd_buffer[buffer_hash]['deadline'] = time.time()
+                self.__job_thread_wakeup()
             # TODO: any more abort responses?
             pass
         else:
